@@ -60,11 +60,15 @@ const (
 	kT         // T{S: Kids[0], P: Kids[1] (kPtrS or kNil), L: Kids[2], M: Kids[3]}
 	kPtrT      // &T{...}
 	kSliceSliceBin
+	kMapMapAny   // map[string]map[string]any (kids: kMapAny)
+	kMapSliceAny // map[string][]any (kids: kSliceAny)
+	kSliceMapAny // []map[string]any (kids: kMapAny)
 	nKinds
 )
 
 var kindName = [...]string{"int", "float", "bool", "nil", "string", "Binary", "[]any", "map[string]any", "S", "*S", "[]Binary",
-	"Plain", "*Plain", "map[string]Binary", "[]S", "[]*S", "map[string]*S", "T", "*T", "[][]Binary"}
+	"Plain", "*Plain", "map[string]Binary", "[]S", "[]*S", "map[string]*S", "T", "*T", "[][]Binary",
+	"map[string]map[string]any", "map[string][]any", "[]map[string]any"}
 
 type node struct {
 	K    kind     `json:"k"`
@@ -155,7 +159,7 @@ func (n *node) render(sb *strings.Builder) {
 			n.Kids[i].render(sb)
 		}
 		sb.WriteByte('}')
-	case kMapAny, kMapBin, kMapPtrS:
+	case kMapAny, kMapBin, kMapPtrS, kMapMapAny, kMapSliceAny:
 		sb.WriteString(kindName[n.K])
 		sb.WriteByte('{')
 		for i, k := range n.Keys {
@@ -317,6 +321,24 @@ func build(n *node) any {
 			l[i] = buildSliceBin(c)
 		}
 		return l
+	case kMapMapAny:
+		m := make(map[string]map[string]any, len(n.Kids))
+		for i, c := range n.Kids {
+			m[n.Keys[i]] = build(c).(map[string]any)
+		}
+		return m
+	case kMapSliceAny:
+		m := make(map[string][]any, len(n.Kids))
+		for i, c := range n.Kids {
+			m[n.Keys[i]] = build(c).([]any)
+		}
+		return m
+	case kSliceMapAny:
+		l := make([]map[string]any, len(n.Kids))
+		for i, c := range n.Kids {
+			l[i] = build(c).(map[string]any)
+		}
+		return l
 	}
 	panic("build: unknown kind")
 }
@@ -379,7 +401,7 @@ func (n *node) countBin() int {
 }
 
 func (n *node) hasMultiBinMap() bool {
-	if n.K == kMapAny || n.K == kMapBin || n.K == kMapPtrS {
+	if n.K == kMapAny || n.K == kMapBin || n.K == kMapPtrS || n.K == kMapMapAny || n.K == kMapSliceAny {
 		with := 0
 		for _, k := range n.Kids {
 			if k.countBin() > 0 {
